@@ -34,6 +34,14 @@ func init() {
 					return &lruSys{c: c, cap: n, keys: keys}
 				}})
 		}
+		// two caches side by side (capacities 1 and 2): whatever is kept at package level -- a pool of
+		// list nodes, a shared sentinel
+		specs = append(specs, &seqmc.Spec{Property: "C07", Component: "LRU(cap=1) x LRU(cap=2)", KeyName: "LRU", Inits: []string{"empty"},
+			New: func(string) seqmc.Sys {
+				a, _ := cache.NewLRU[int, string](1)
+				b, _ := cache.NewLRU[int, string](2)
+				return seqmc.Pair(&lruSys{c: a, cap: 1, keys: 3}, &lruSys{c: b, cap: 2, keys: 3})
+			}})
 		return specs
 	}
 	extras["C07"] = func(rep *core.Report) {
